@@ -129,3 +129,13 @@ def main(run):
                       "case: %s\nmodel: %s\nimpl : %s\n" % (ln, a, b), tag="bins%d" % nbad)
     run.cov["disagreements"] = nbad
     run.cov["corpus_cases"] = len(corpus)
+    if run.tier == "thorough":
+        # independent re-check of the compiled proofs (coqchk: kernel only, reports axioms)
+        rc, out = vlib.sh(["coqchk", "-silent", "-o", "-Q", ".", "LibcoapV", "LibcoapV.Properties_C01"],
+                          cwd=vlib.COQ, timeout=1800, check=False)
+        ok = rc == 0 and "* Axioms: <none>" in out
+        run.cov["coqchk"] = "ok, axioms: none" if ok else out[-600:]
+        if not ok:
+            run.violation("coqchk does not accept Properties_C01.vo (or finds axioms)", out[-4000:],
+                          tag="coqchk", no_input=True)
+
